@@ -1919,7 +1919,9 @@ class Ctx:
                     rec(gg, gens[1:])
 
         rec(self.g, e.generators)
-        if st['lost'] is not False and kind != 'gen':
+        if st['lost'] is not False:
+            # (generator expressions too: they are evaluated eagerly, so an element that raises ends the enclosing path here -
+            #  exact when the generator is consumed completely, which is what the interpreted code does)
             self.g = b_and(self.g, b_not(st['lost']))
         if kind == 'gen':
             return GSeq(entries)
@@ -2504,6 +2506,8 @@ def m_len(ctx, o):
             return count_bits(list(oa.bits.values()))
         if isinstance(oa, MDict):
             return count_bits(list(oa.present.values()))
+        if isinstance(oa, GSeq):
+            return count_bits([b_and(ctx.g, g) if g is not True else True for g, _ in oa.entries])
         return len(oa)
     return fold(o, one)
 
@@ -2893,20 +2897,32 @@ class _Lit(ast.AST):
 
 
 def m_reduce(ctx, fn, it, *init):
-    """functools.reduce over a sequence whose elements all exist (guarded elements are not modelled)"""
+    """functools.reduce: an element that exists only under a guard (symbolic membership, or a generator whose later elements are
+    reached only where the earlier ones did not raise) is folded in under that guard and skipped elsewhere"""
     plan = [(g, v) for g, v in ctx.iter_plan(it) if g is not False]
-    if not all(g is True for g, _ in plan):
-        raise Unsupported('reduce over a sequence with symbolic membership')
-    vals = [v for _, v in plan]
     if init:
         acc = init[0]
-    elif vals:
-        acc, vals = vals[0], vals[1:]
-    else:
+    elif plan and plan[0][0] is True:
+        acc, plan = plan[0][1], plan[1:]
+    elif not plan:
         ctx.raise_(True, TypeError('reduce() of empty iterable with no initial value'))
         return None
-    for v in vals:
-        acc = ctx.call(fn, [acc, v], {})
+    else:
+        raise Unsupported('reduce without initial value over a sequence whose first element is guarded')
+    for g, v in plan:
+        if g is True:
+            acc = ctx.call(fn, [acc, v], {})
+            continue
+        saved = ctx.g
+        ctx.g = b_and(saved, g)
+        if ctx.g is False:
+            ctx.g = saved
+            continue
+        before = ctx.g
+        r = ctx.call(fn, [acc, v], {})
+        lost = b_and(before, b_not(ctx.g))          # inputs on which the step raised
+        acc = merge(g, r, acc)
+        ctx.g = b_and(saved, b_not(lost))
     return acc
 
 MODELS = {_itertools.product: m_product, _itertools.chain: m_chain, _collections.deque: m_deque, enumerate: m_enumerate, zip: m_zip, reversed: m_reversed, weakref.ref: m_weakref_ref, weakref.WeakValueDictionary: m_dict, weakref.WeakKeyDictionary: m_dict, any: m_any, all: m_all, bool: m_bool, max: m_max, tuple: m_tuple, frozenset: m_frozenset, weakref.WeakSet: m_set, id: m_id, set: m_set, dict: m_dict, list: m_list, len: m_len, iter: m_iter, next: m_next, min: m_min,
